@@ -37,6 +37,7 @@ ARCHETYPES = [
     "flat_share",
     "pensioners",
     "spouse_apart",
+    "pensioner_parent",
 ]
 
 POINTER_COLS = [
@@ -355,6 +356,19 @@ def _draw_household(draw, b: _Builder, arch: str, max_children: int):
             g2 = b.add(hh, g2a, weiblich=False, rentner=g2a >= 65)
             b.couple(g, g2, draw(st.booleans()), joint=draw(st.booleans()))
         b.tags.add("pensioner")
+
+    elif arch == "pensioner_parent":
+        # a (disability / old-age) pensioner, alone or with a pensioner partner, raising a child
+        pa = draw(st.integers(45, 72))
+        a = b.add(hh, pa, weiblich=draw(st.booleans()), rentner=True, alleinerz=True)
+        if draw(st.booleans()):
+            c = b.add(hh, draw(st.integers(50, 75)), weiblich=not b.rows[a]["weiblich"], rentner=True)
+            b.couple(a, c, True, joint=draw(st.booleans()))
+            b.rows[a]["alleinerz"] = False
+        for _ in range(draw(st.integers(1, 2))):
+            k = b.add(hh, _child_age(draw, pa, 3, 17), weiblich=draw(st.booleans()))
+            b.child_of(k, a, -1)
+        b.tags.add("pensioner_parent")
 
     elif arch == "spouse_apart":
         a = b.add(hh, _adult_age(draw), weiblich=True)
